@@ -279,7 +279,17 @@ impl Prop for C01 {
             .iter()
             .map(|&i| {
                 let rs = seed::run_seed(ctx.base_seed ^ 0xC01, i);
-                if i % 4 == 3 { pipeline::generate_api(rs, 0) } else { pipeline::generate(rs) }
+                let mut s = if i % 4 == 3 { pipeline::generate_api(rs, 0) } else { pipeline::generate(rs) };
+                // thorough tier: a share of runs at the shipped metadata zstd levels (18/19), the
+                // default segment compression level and large segment sizes (1-2 s per run)
+                if ctx.tier == Tier::Thorough && i % 1500 == 0 {
+                    s.cfg.meta_zstd_level = None;
+                    s.cfg.compression_level = 17;
+                    s.cfg.segment_size = 60_000;
+                    s.cfg.k = 31;
+                    s.gen.max_len = s.gen.max_len.max(6000);
+                }
+                s
             })
             .collect();
         run_specs("C01", specs, indices)
